@@ -346,7 +346,13 @@ impl Exec {
             self.mismatch("error_kind", format!("C reports {kind}, the Rust operation failed with {exp_kind} ({:?})", self.last));
         }
         // a message with an interior NUL cannot cross the boundary
-        if msg != exp_msg && !exp_msg.as_deref().map(|m| m.contains('\0')).unwrap_or(false) {
+        if matches!(self.last, Some(MErr::InvalidArgument)) {
+            // no Rust operation stands behind an invalid argument: the wording belongs to the C
+            // API, only its presence is required
+            if msg.as_deref().map(|m| m.is_empty()).unwrap_or(true) {
+                self.mismatch("error_message", "no message for an invalid argument".to_string());
+            }
+        } else if msg != exp_msg && !exp_msg.as_deref().map(|m| m.contains('\0')).unwrap_or(false) {
             self.mismatch("error_message", format!("C reports {msg:?}, Rust {exp_msg:?}"));
         }
         let checks: Vec<error::FailedCheck> = self.last.as_ref().and_then(failed_checks).cloned().unwrap_or_default();
